@@ -247,8 +247,11 @@ class Wiring:
         if isinstance(expr, (ast.List, ast.Tuple)):
             out = []
             for e in expr.elts:
-                out.extend(self.eval(e, owner, init, _depth, env))
+                out.extend(self.eval(e.value if isinstance(e, ast.Starred) else e, owner, init, _depth, env))
             return out
+        if isinstance(expr, ast.BinOp) and isinstance(expr.op, ast.Add):
+            # concatenation of two pattern lists
+            return self.eval(expr.left, owner, init, _depth, env) + self.eval(expr.right, owner, init, _depth, env)
         if isinstance(expr, ast.ListComp) and len(expr.generators) == 1 and not expr.generators[0].ifs \
                 and isinstance(expr.generators[0].target, ast.Name):
             g = expr.generators[0]
@@ -585,11 +588,12 @@ def numeric_problems(table, keys, norm=lambda v: v):
 class Taint:
     """occurrences of `src` (a parameter) and whether each is control-dependent on the no-year condition"""
 
-    def __init__(self, fn, src, flag_names=(), year_names=()):
+    def __init__(self, fn, src, flag_names=(), year_names=(), aliases=None):
         self.fn = fn
         self.src = src
         self.flags = set(flag_names)
         self.years = set(year_names)
+        self.aliases = dict(aliases or {})     # local bound once to a comparison: name -> polarity of that comparison
         self.occ = []        # (Name node, guarded, parent call or None, arg index / keyword)
         self.assigns = {}    # local name -> [(value node, guarded, lineno)]
         self.first_test_line = None
@@ -597,6 +601,8 @@ class Taint:
 
     def polarity(self, t):
         if isinstance(t, ast.Name):
+            if t.id in self.aliases:
+                return self.aliases[t.id]
             if t.id in self.flags:
                 return 1
             if t.id in self.years:
@@ -785,6 +791,17 @@ def taint_match_to_date(fn, gd_params):
     flag = fl.id if isinstance(fl, ast.Name) else None
     t = Taint(fn, 'reference', flag_names=[flag] if flag else [], year_names=[yv.id])
     ty = Taint(fn, 'reference', flag_names=[], year_names=[yv.id])     # guards from the year test alone
+    # def-use: a flag bound exactly once to the year comparison (`no_year = year == 0`) IS that comparison wherever it is tested
+    flag_line = None
+    if flag is not None:
+        binds = ty.assigns.get(flag, [])
+        if len(binds) == 1 and isinstance(binds[0][0], ast.expr) and not isinstance(binds[0][0], ast.Constant):
+            pol = ty.polarity(binds[0][0])
+            if pol != 0:
+                flag_line = binds[0][2]
+                if pol == -1:
+                    probs.append((flag_line, 'flag `%s` is bound to %s, which is true when a year WAS given' % (flag, ast.unparse(binds[0][0]))))
+                ty = Taint(fn, 'reference', flag_names=[], year_names=[yv.id], aliases={flag: pol})
     if flag is None:
         if not (isinstance(fl, ast.Constant) and fl.value is False):
             probs.append((fl.lineno, 'no_year argument of generate_dates is %s, not a flag set under `%s == 0`'
@@ -795,6 +812,8 @@ def taint_match_to_date(fn, gd_params):
                 continue
             if isinstance(val, ast.Constant) and val.value is True and g:
                 continue
+            if flag_line is not None and ln == flag_line:
+                continue            # bound to the comparison itself (judged above)
             probs.append((ln, 'flag `%s` is set to %s %s the `%s == 0` branch'
                           % (flag, ast.unparse(val) if isinstance(val, ast.expr) else 'an update',
                              'inside' if g else 'outside', yv.id)))
@@ -810,10 +829,11 @@ def taint_match_to_date(fn, gd_params):
         if call is calls[0] and (pos == gd_params.index('reference') or pos == 'reference'):
             continue           # handed to generate_dates, which is checked separately
         probs.append((n.lineno, '`reference` is read outside the `%s == 0` branch' % yv.id))
-    # the year test must come after the decoding of the year groups
+    # the year test (or the binding of the flag to it) must come after the decoding of the year groups
     if ty.first_test_line is not None:
+        cut = min(ty.first_test_line, flag_line) if flag_line is not None else ty.first_test_line
         for val, g, ln in ty.assigns.get(yv.id, []):
-            if not g and ln > ty.first_test_line:
+            if not g and ln > cut:
                 probs.append((ln, '`%s` is assigned after the `%s == 0` test' % (yv.id, yv.id)))
     if 'reference' in ty.assigns:
         probs.append((ty.assigns['reference'][0][2], '`reference` is re-assigned'))
@@ -1398,9 +1418,130 @@ def run(chk):
             w0 = next(w for w in FULL_MONTHS[cul] if w in mwords)
             capt_control = w0 in mwords and regs.witness(w0) is not None and month_abbreviates(cul, w0) is not None
     chk.control('C06.capturable', capt_control)
+    rule_order(chk, idx, W, dp_cfgs)
     rule_flags(chk, idx, W)
     chk.exhaustive = False
 
+
+
+# =====================================================================================================
+# C06.order - the numeric layout 'a/b/yyyy' is read in the culture's day/month order: the *ordered* list of date regexes
+# (the parser takes the first one that spans the text) is evaluated from the configuration's __init__
+# =====================================================================================================
+
+class _ResStr(str):
+    """a resource string that remembers where it came from"""
+
+    def __new__(cls, value, rcls, attr):
+        o = str.__new__(cls, value)
+        o.rcls, o.attr = rcls, attr
+        return o
+
+
+DAY_MONTH_ORDER = {'english': 'MD', 'chinese': 'MD', 'spanish': 'DM', 'french': 'DM', 'portuguese': 'DM', 'german': 'DM',
+                   'italian': 'DM', 'dutch': 'DM'}
+
+
+def ordered_date_regexes(idx, W, cls, flag):
+    """interpret the extractor configuration's __init__ with its format flag(s) set to `flag`: the date regex list in order"""
+    from .c08 import MiniEval, Undetermined, _Return, _Raised
+    k, init = idx.find_method(cls, '__init__')
+    if init is None:
+        raise AnalysisError('%s has no __init__' % cls.name)
+
+    def res(node):
+        if isinstance(node, ast.Attribute) and isinstance(node.value, ast.Name):
+            rc = idx.resolve_class(k.mod, node.value)
+            if rc is not None and '.resources.' in rc.mod.name:
+                vals = W.R.values(rc)
+                if node.attr in vals:
+                    v = vals[node.attr]
+                    return _ResStr(v, rc.name, node.attr) if isinstance(v, str) else v
+            if rc is not None and node.attr in class_consts_cached(idx, rc):
+                return class_consts_cached(idx, rc)[node.attr]
+        raise Undetermined('attribute %s' % ast.unparse(node)[:40])
+
+    def hook(call, args, env):
+        if _callee_name(call) in ('get_safe_reg_exp', 'compile') and args:
+            return True, args[0]
+        return False, None
+
+    ev = MiniEval(idx, k, res)
+    ev.call_hook = hook
+    env = {'self': '<self>'}
+    for a in init.args.args[1:]:
+        env[a.arg] = flag
+    for st in init.body:
+        try:
+            ev.block([st], env)
+        except (Undetermined, _Raised):
+            continue
+        except _Return:
+            break
+    for key in ('self._date_regex_list', 'self._date_regex'):
+        lst = env.get(key)
+        if isinstance(lst, list) and lst and all(isinstance(x, str) for x in lst):
+            return lst
+    raise AnalysisError('%s.__init__: the ordered date regex list cannot be interpreted' % cls.name)
+
+
+_CONSTS_CACHE = {}
+
+
+def class_consts_cached(idx, cls):
+    if cls.qual not in _CONSTS_CACHE:
+        _CONSTS_CACHE[cls.qual] = class_consts(idx, cls.qual)
+    return _CONSTS_CACHE[cls.qual]
+
+
+def first_reading(patterns, prefix, text):
+    """(pattern label, month, day) of the first regex - in list order - that spans the text as parse_basic_regex_match requires"""
+    for pat in patterns:
+        try:
+            pp = PyPattern(str(pat))
+        except rx.RxError:
+            continue
+        for s2, off in ((text, 0), (prefix + text, len(prefix))):
+            m = pp.re.search(s2)
+            if m and m.start() == off and m.end() == len(s2):
+                return getattr(pat, 'attr', '?'), pp.group(m, 'month'), pp.group(m, 'day')
+            if m:
+                break
+    return None
+
+
+def rule_order(chk, idx, W, dp_cfgs):
+    chk.rule('C06.order', "the numeric layout a/b/yyyy is read in the culture's day/month order by the first date regex (in list order) "
+             "that spans it", floor=8, control=True)
+    ex_cfgs = W.culture_classes(DT + 'base_date.DateExtractorConfiguration')
+    for cul in CULTURES:
+        if cul not in ex_cfgs:
+            raise AnalysisError('no DateExtractorConfiguration subclass for culture %s' % cul)
+        cls = ex_cfgs[cul]
+        pv = W.resolve(dp_cfgs[cul], 'date_token_prefix')
+        prefix = pv[0].value if pv and isinstance(pv[0].value, str) else ''
+        cases = [(False, DAY_MONTH_ORDER[cul])]
+        k, init = idx.find_method(cls, '__init__')
+        if init is not None and any('dmy' in a.arg.lower() for a in init.args.args):
+            cases.append((True, 'DM'))
+        for flag, order in cases:
+            lst = ordered_date_regexes(idx, W, cls, flag)
+            for text in ('5/6/2016', '5-6-2016'):
+                r = first_reading(lst, prefix, text)
+                cons = '%s[%s%s]' % (cls.name, text, ', day-first flag set' if flag else '')
+                if r is None:
+                    chk.exempt('C06.order', cls.mod.path, cons, 'no wired date regex spans this layout', 'not accepted')
+                    continue
+                want = ('5', '6') if order == 'MD' else ('6', '5')
+                got = (str(r[1]).lstrip('0'), str(r[2]).lstrip('0'))
+                chk.judge(got == want, 'C06.order', cls.mod.path, cons, '%s: month %s day %s' % (r[0], r[1], r[2]),
+                          "%s: %r is read by %s (first in list order) as month %s, day %s; the %s order is %s, i.e. month %s, day %s"
+                          % (cul, text, r[0], r[1], r[2], 'requested day-first' if flag else "culture's", 'day/month' if order == 'DM' else 'month/day',
+                             want[0], want[1]))
+    md = _ResStr(r'(?<month>\d{1,2})/(?<day>\d{1,2})/(?<year>\d{4})', 'Control', 'MonthFirst')
+    dm = _ResStr(r'(?<day>\d{1,2})/(?<month>\d{1,2})/(?<year>\d{4})', 'Control', 'DayFirst')
+    r0, r1 = first_reading([md, dm], '', '5/6/2016'), first_reading([dm, md], '', '5/6/2016')
+    chk.control('C06.order', r0 is not None and r1 is not None and (r0[1], r0[2]) == ('5', '6') and (r1[1], r1[2]) == ('6', '5'))
 
 
 # =====================================================================================================
